@@ -11,7 +11,9 @@ misaligned) that succeed or raise and are caught, unary operations, views -- the
 35 % of the cases REPEAT the call on the same array objects after in-place changes (element / slice
 assignment, *=, +=, or nothing), every call compared with the model on the contents at that moment;
 la.dot / la.matmul / @ also get N-d operands: dot with scalars and 1-D..3-D operands in all combinations,
-matmul with equal-rank stacks and broadcasting) and the outcome -- every result element (value, the three component vectors,
+matmul with equal-rank stacks and broadcasting; arguments that are NOT object arrays: uarrays built from int64 /
+int32 / float64 ndarrays (the uarray keeps that dtype), plain ndarrays, nested lists; la.transpose / np.transpose /
+.T with explicit axes (every permutation, negative axes) on 1-D..3-D arrays) and the outcome -- every result element (value, the three component vectors,
 node kind), the contents of the argument arrays after the call, or the exception class -- is
 compared bit for bit with the Gallina model LU.v instantiated at LUInst.FElt (FNum), evaluated
 inside coqc.  The theorems (coq/LUFacts.v, coq/DualRing.v, coq/props/C15.v) are about the same
@@ -32,6 +34,8 @@ PARTIAL = ('proved for every size N over any commutative ring with partial inver
            'cofactor sensitivities, the left-inverse equation inv(a).a = I, and complex / uncertain-complex elements are '
            'covered only by the oracle search, not by the model; N-d dot / matmul: the sum-of-products index pattern is '
            'proved (C15_dot_nd_def, C15_matmul_nd_def, C15_dot_scalar_def) for the flat model that the correspondence ties to numpy; '
+           'N-d transpose: index map modelled and tied by correspondence, permutation property proved for 2-D and checked by execution for 3-D; '
+           'integer-dtype inv/invab, plain integer ndarrays and lists with solve/inv/det, bool arrays are kept out of the generator (defects reported); '
            'la.matmul with operands of different rank (one of them >= 3-D) raises IndexError: known finding C15-3, modelled as such')
 ASSUMPTIONS = ['rounding error of float arithmetic is not bounded by proof (theorems are over exact rings)',
                "numpy's object-array dot (OBJECT_dot: first product, then left-to-right additions), transpose and "
